@@ -43,3 +43,39 @@ Theorem C10_used_indicator : forall (P : N -> list node) (i : N) (e : PathEnc.ed
   (usedq P i e == 1)%Q /\ (0 < mult P i e)%Z \/ (usedq P i e == 0)%Q /\ (mult P i e <= 0)%Z.
 Proof. exact usedq_is_indicator. Qed.
 Print Assumptions C10_used_indicator.
+
+(* ---- audit: the file had no instance.  ALL hypotheses of C10_subset_constraint_realised_in_one_walk hold together on a digraph with a
+   cycle and a NON-EMPTY list of subset constraints (self-loop graph, constraint {x -> x}, k = 1; the satisfying assignment is checked by
+   the verified LP checker), the conclusion is about that constraint, and the feasibility characterisation applies to the instance ---- *)
+From FP Require Import WalkExamples AuditExamples20.
+Example C10_walk_all_premises_hold :
+  wf_stg (c_graph loop_cons_inst) /\ o_allow_empty (c_opts loop_cons_inst) = false /\ inputs_ok loop_cons_inst /\
+  sat loop_cons_sol (encode_kfdc loop_cons_inst) /\ nth_error (all_cons (kfdc_walk loop_cons_inst)) 0 = Some [(0, 0)%N] /\
+  (exists i, In i (layers (c_k loop_cons_inst)) /\
+     (qnat (length (nodup_e [(0, 0)%N])) * c_cov loop_cons_inst <= sumq (usedq (Pof loop_cons_inst loop_cons_sol) i) (nodup_e [(0, 0)%N]))%Q) /\
+  (exists P wt, admissible loop_cons_inst P wt).
+Proof.
+  assert (Hn : nth_error (all_cons (kfdc_walk loop_cons_inst)) 0 = Some [(0, 0)%N]) by (vm_compute; reflexivity).
+  split; [exact loopG_wf|]. split; [reflexivity|]. split; [exact loop_cons_inputs_ok|]. split; [exact loop_cons_feasible|]. split; [exact Hn|]. split.
+  - exact (C10_subset_constraint_realised_in_one_walk loop_cons_inst loop_cons_sol loopG_wf eq_refl loop_cons_inputs_ok loop_cons_feasible 0%nat _ Hn).
+  - apply (C10_subset_constraint_rows_cut_off_nothing loop_cons_inst loopG_wf eq_refl loop_cons_inputs_ok). exists loop_cons_sol. exact loop_cons_feasible.
+Qed.
+Print Assumptions C10_walk_all_premises_hold.
+(* degenerate: without constraints the statement says nothing (no j with nth_error ... = Some c): the instance loop_inst has none *)
+Example C10_walk_no_constraints_is_the_empty_statement : all_cons (kfdc_walk (loop_inst 1)) = [].
+Proof. vm_compute. reflexivity. Qed.
+Print Assumptions C10_walk_no_constraints_is_the_empty_statement.
+(* the same for the cover model: all hypotheses of C10_subset_constraint_realised_in_one_cover_walk / ..._cut_off_no_cover with a
+   non-empty constraint list on the graph with the cycle *)
+Example C10_walk_cover_all_premises_hold :
+  wf_stg (pc_graph loop_cons_kpcc) /\ o_allow_empty (pc_opts loop_cons_kpcc) = false /\ winputs_ok (kpcc_walk loop_cons_kpcc) /\
+  sat loop_cons_sol (encode_kpcc loop_cons_kpcc) /\ all_cons (kpcc_walk loop_cons_kpcc) = [[(0, 0)%N]] /\
+  wrealises_constraints (kpcc_walk loop_cons_kpcc) (Pofw (kpcc_walk loop_cons_kpcc) loop_cons_sol) /\
+  (exists P, cover_admissible loop_cons_kpcc P).
+Proof.
+  split; [exact loopG_wf|]. split; [reflexivity|]. split; [exact loop_cons_kpcc_inputs_ok|]. split; [exact loop_cons_kpcc_feasible|].
+  split; [vm_compute; reflexivity|]. split.
+  - exact (C10_subset_constraint_realised_in_one_cover_walk loop_cons_kpcc loop_cons_sol loopG_wf eq_refl loop_cons_kpcc_inputs_ok loop_cons_kpcc_feasible).
+  - apply (C10_subset_constraint_rows_cut_off_no_cover loop_cons_kpcc loopG_wf eq_refl loop_cons_kpcc_inputs_ok). exists loop_cons_sol. exact loop_cons_kpcc_feasible.
+Qed.
+Print Assumptions C10_walk_cover_all_premises_hold.
